@@ -326,6 +326,15 @@ func C07(rep *ev.Reporter, tier string) {
 			name string
 			res  []string
 		}{"sibling-removed-then-rebuilt", []string{ra, "!remove:ra", rbt, ra}})
+		// the sibling's NAME differs from the rule's only in letter case
+		rbCase := strings.ReplaceAll(strings.Replace(rbt, "rule rb ", "rule RA ", 1), `Retract("rb")`, `Retract("RA")`)
+		variants = append(variants, struct {
+			name string
+			res  []string
+		}{"names-differ-only-in-case#b-is-RA", []string{ra + "\n" + rbCase}}, struct {
+			name string
+			res  []string
+		}{"names-differ-only-in-case-ba#b-is-RA", []string{rbCase, ra}})
 		// triple: the sibling expressions sit inside a larger expression shared by a third rule
 		if typ == ref.VBool {
 			rc := fmt.Sprintf("rule rc { when (%s) && K.B then K.In = 1; Retract(\"rc\"); }", p.a)
@@ -355,7 +364,14 @@ func C07(rep *ev.Reporter, tier string) {
 				if rep.ReplayFilter != "" && rep.ReplayFilter != caseID {
 					continue
 				}
+				if strings.HasSuffix(v.name, "#b-is-RA") && (aloneA.err != "" || aloneB.err != "") {
+					continue // a failing action ends the run, and "RA" is visited before "ra": which rule fired first is not the point here
+				}
 				onlyB := strings.HasSuffix(v.name, "#only-b")
+				nameB := "rb"
+				if strings.HasSuffix(v.name, "#b-is-RA") {
+					nameB = "RA"
+				}
 				tog := observe(v.res, mkw)
 				atomic.AddInt64(&nRuns, 1)
 				diff := ""
@@ -364,7 +380,7 @@ func C07(rep *ev.Reporter, tier string) {
 					diff = "built together: " + tog.builderr
 				case !onlyB && tog.fetch["ra"] != aloneA.fetch["ra"]:
 					diff = fmt.Sprintf("FetchMatchingRules: ra matches alone=%v together=%v", aloneA.fetch["ra"], tog.fetch["ra"])
-				case tog.fetch["rb"] != aloneB.fetch["rb"]:
+				case tog.fetch[nameB] != aloneB.fetch["rb"]:
 					diff = fmt.Sprintf("FetchMatchingRules: rb matches alone=%v together=%v", aloneB.fetch["rb"], tog.fetch["rb"])
 				default:
 					sa, sb := "K.I", "K.I2"
